@@ -609,13 +609,22 @@ func strRemoveSuffix(s *scope, args []pyObject) pyObject {
 func strFind(s *scope, args []pyObject) pyObject {
 	self := args[0].(pyString)
 	needle := args[1].(pyString)
-	return newPyInt(strings.Index(string(self), string(needle)))
+	return newPyInt(runeIndex(string(self), strings.Index(string(self), string(needle))))
 }
 
 func strRFind(s *scope, args []pyObject) pyObject {
 	self := args[0].(pyString)
 	needle := args[1].(pyString)
-	return newPyInt(strings.LastIndex(string(self), string(needle)))
+	return newPyInt(runeIndex(string(self), strings.LastIndex(string(self), string(needle))))
+}
+
+// runeIndex converts a byte offset into s (or -1) into an index in characters, which is how
+// strings are indexed and measured everywhere else in the language.
+func runeIndex(s string, byteIndex int) int {
+	if byteIndex < 0 {
+		return byteIndex
+	}
+	return utf8.RuneCountInString(s[:byteIndex])
 }
 
 func strFormat(s *scope, args []pyObject) pyObject {
